@@ -1,7 +1,7 @@
 (* C11 -- A SCHC packet is dispatched to the rule whose ID it starts with.
    Model: Schc.match_schc_packet (ruler.py).  Only statements; proofs in theories/SchcRules.v. *)
 From Coq Require Import ZArith List Bool.
-From MS Require Import PyBase Bits Schc SchcSpec SchcRules.
+From MS Require Import PyBase Buffer Bits BufferAbs Schc SchcSpec SchcRules SchcBytes SchcRefine.
 Import ListNotations.
 Open Scope Z_scope.
 
@@ -23,6 +23,13 @@ Theorem c11_manager ct rules r rest d : prefix_free rules -> In r rules ->
   cm_decompress ct rules (rule_id r ++ rest) d = decompress ct (rule_id r ++ rest) r d.
 Proof. exact (cm_decompress_dispatch ct rules r rest d). Qed.
 
+(* composition with the byte-level Buffer model: the lookup written with b_getitem and b_eq finds the same rule *)
+Theorem c11_dispatch_bytes rules s : canon s -> Forall canon_rule rules ->
+  exists o, bmatch_schc_loop rules s = Ok o /\
+            option_map (abs_rule abs) o = match_schc_loop (map (abs_rule abs) rules) (abs s) /\
+            match o with Some r => In r rules | None => True end.
+Proof. exact (bmatch_schc_loop_refines rules s). Qed.
+
 Example c11_ex :
   let r1 := mkrule [true;true;false] NoCompression [] in let r2 := mkrule [true;false] NoCompression [] in
   match_schc_packet [r1; r2] [true;false;true;true] = Ok r2 /\ match_schc_packet [r1; r2] [true] = Exc RuleIDMatchError.
@@ -32,3 +39,4 @@ Print Assumptions c11_dispatch.
 Print Assumptions c11_none.
 Print Assumptions c11_first.
 Print Assumptions c11_manager.
+Print Assumptions c11_dispatch_bytes.
